@@ -375,8 +375,9 @@ def main():
     evidence = {
         "property_id": prop, "tier": args.tier, "seed": args.seed, "level": P["level"],
         "coverage": {
-            "evaluations": ctx.results,
-            "distinct_nontrivial": len(ctx.dkeys),
+            "evaluations": int(st["enumerated_runs"]) if "enumerated_runs" in st else ctx.results,
+            "distinct_nontrivial": int(st["faults_fired_distinct"]) if "faults_fired_distinct" in st else len(ctx.dkeys),
+            "cases": ctx.results,
             "rule": RULES[prop],
             "samples": ctx.samples[:6] or [{"note": "no sample recorded"}],
             "exhaustive": False,
